@@ -33,6 +33,10 @@ var substModel = map[string][2]string{
 	"archive/tar":                {"zztar", "github.com/regclient/regclient/internal/zztar"},
 	"github.com/yuin/gopher-lua": {"zzlua", "github.com/regclient/regclient/internal/zzlua"},
 	"github.com/regclient/regclient/cmd/regbot/internal/go2lua": {"zzgo2lua", "github.com/regclient/regclient/internal/zzgo2lua"},
+	// "<import>@<variant>" selects another model for the same import
+	"archive/tar@bytes":                  {"zztarb", "github.com/regclient/regclient/internal/zztarb"},
+	"compress/gzip":                      {"zzgzip", "github.com/regclient/regclient/internal/zzgzip"},
+	"github.com/klauspost/compress/zstd": {"zzzstd", "github.com/regclient/regclient/internal/zzzstd"},
 }
 
 var pkgDirRE = regexp.MustCompile(`(?m)^//zz:pkg\s+(\S+)`)
@@ -152,15 +156,19 @@ func Overlay(repo, verif string, hs []Harness) (map[string][]byte, []string, err
 					ov[filepath.Join(repo, "internal", model[0], e.Name())] = b
 				}
 			}
+			imp := sb[1]
+			if i := strings.Index(imp, "@"); i >= 0 {
+				imp = imp[:i]
+			}
 			pdir := filepath.Join(repo, sb[0])
 			files, err := os.ReadDir(pdir)
 			if err != nil {
 				return nil, nil, err
 			}
-			single := regexp.MustCompile(`(?m)^import\s+"` + regexp.QuoteMeta(sb[1]) + `"\s*$`)
-			inBlock := regexp.MustCompile(`(?m)^(\s*)"` + regexp.QuoteMeta(sb[1]) + `"\s*$`)
-			aliased := regexp.MustCompile(`(?m)^(\s*(?:import\s+)?)(\w+)\s+"` + regexp.QuoteMeta(sb[1]) + `"\s*$`)
-			alias := filepath.Base(sb[1])
+			single := regexp.MustCompile(`(?m)^import\s+"` + regexp.QuoteMeta(imp) + `"\s*$`)
+			inBlock := regexp.MustCompile(`(?m)^(\s*)"` + regexp.QuoteMeta(imp) + `"\s*$`)
+			aliased := regexp.MustCompile(`(?m)^(\s*(?:import\s+)?)(\w+)\s+"` + regexp.QuoteMeta(imp) + `"\s*$`)
+			alias := filepath.Base(imp)
 			for _, f := range files {
 				if !strings.HasSuffix(f.Name(), ".go") || strings.HasSuffix(f.Name(), "_test.go") {
 					continue
